@@ -33,8 +33,8 @@ Theorem C04_collect_after_import_history :
             last_op ops k = Some (m, bs) -> settled g k m bs) /\
            (forall (name : string) (m : option string) (bs : list dblock),
             In (name, m, bs) notes ->
-            ~ In (key_from_file_name name) (map op_key ops) ->
-            settled g (key_from_file_name name) m bs) /\
+            ~ In (key_name name) (map op_key ops) ->
+            settled g (key_name name) m bs) /\
            (forall k : string,
             In k (map fst (gr_keys g)) <-> In k (map op_key ops) \/ In k (map note_key notes)) /\
            NoDup (map fst (gr_keys g)).
@@ -48,8 +48,8 @@ Check C04_collect_after_import_history :
             last_op ops k = Some (m, bs) -> settled g k m bs) /\
            (forall (name : string) (m : option string) (bs : list dblock),
             In (name, m, bs) notes ->
-            ~ In (key_from_file_name name) (map op_key ops) ->
-            settled g (key_from_file_name name) m bs) /\
+            ~ In (key_name name) (map op_key ops) ->
+            settled g (key_name name) m bs) /\
            (forall k : string,
             In k (map fst (gr_keys g)) <-> In k (map op_key ops) \/ In k (map note_key notes)) /\
            NoDup (map fst (gr_keys g)).
